@@ -29,6 +29,7 @@ META.update({
     "C03": _m("Recorded executions of random calls are accepted only if results equal EvalCall/FnSem: arguments in order, defaults, typed absence, per-element application with dropped absent results, concat.", "DESIGN.md section 6 C03"),
     "C04": _m("Parse verdicts of well-typed and mutated programs must equal the L2 parser/type-checker model; accepted programs must execute without panic.", "DESIGN.md section 6 C04"),
     "C07": _m("Alias/white-space variants must yield equal AST, identical JSON text and hash; JSON must equal the canonical AstJson; structurally different partners must serialize differently.", "DESIGN.md section 6 C07"),
+    "C08": _m("All bounded operation histories are enumerated by TLC on the abstract context machine (TypeOK and failed-set-is-a-no-op checked in-model) and replayed on real contexts; long random histories are validated as traces with the after-state compared at every step.", "DESIGN.md section 6 C08"),
     "C09": _m("Recorded `in {..}` executions with long random lists are accepted only if they equal declarative membership.", "DESIGN.md section 6 C09"),
     "C12": _m("uses()/uses_list() answers on random filters are accepted only if they equal the syntactic occurrence predicates.", "DESIGN.md section 6 C12"),
     "C13": _m("Parse verdicts of nesting shapes under varying limits must equal the L2 counter model, which is checked against Nesting(ast).", "DESIGN.md section 6 C13"),
